@@ -28,7 +28,10 @@ class P(vlib.Prop):
             "deflate, upper case, lists, unknown names; limit L, or the raw size +-1); custom (WithDecoder: pass-through, "
             "(nil,nil), error, byte-doubling, and a nil func; also overriding gzip, zstd, deflate and ''); nildecoder (enabled "
             "name without decoder: regression inputs of the repaired panic, must get 400); pairgrid (exhaustive: every single enabled name x every content-encoding name of the default list, "
-            "valid body for the header's codec). Request framing is a dimension of EVERY class: 35-65% of the non-empty "
+            "valid body for the header's codec); namevariant (exhaustive: for each of the seven names with a decoder the names near "
+            "it — x-name, X-name, upper case, capitalised, affixes; x-, X-, -, identity — with a body valid for that decoder, "
+            "default and restricted list: all must be rejected); default-limit (limit unset/0/negative: bodies of 20 MiB+ "
+            "compressed beforehand by each library, one identity body, one of exactly 20 MiB). Request framing is a dimension of EVERY class: 35-65% of the non-empty "
             "bodies are handed over as opaque readers (no length declared: sent chunked, ContentLength -1 at the server; "
             "identity bodies without declared length get limits at or below their size), method POST/PUT/PATCH/DELETE "
             "(the model has no method input; the declared length is an independent input of the model's server). "
